@@ -549,6 +549,10 @@ class MoveModule:
             raise exceptions.RefactoringError(
                 "Move destination for modules should be packages."
             )
+        if dest == self.source.parent:
+            raise exceptions.RefactoringError(
+                "Moving a module to the package it already is in."
+            )
         return self._calculate_changes(dest, resources, task_handle)
 
     def _calculate_changes(self, dest, resources, task_handle):
